@@ -61,6 +61,9 @@ pub fn json_str(txt: &str, key: &str) -> Option<String> {
     None
 }
 
+/// thorough tier (VREPLAY_DEEP=1): deeper bounds in every search (stated in each module)
+pub fn deep() -> bool { std::env::var("VREPLAY_DEEP").map(|v| v == "1").unwrap_or(false) }
+
 /// all strings over `alpha` up to length `max` (shortest first)
 pub fn strings(alpha: &[char], max: usize, mut f: impl FnMut(&str) -> bool) {
     let mut idx: Vec<usize> = vec![];
